@@ -59,8 +59,8 @@ type Header struct {
 // Record is one logical record with everything a consumer can learn about it.
 type Record struct {
 	Offset        int64
-	Timestamp     int64 // milliseconds; -1 for magic 0
-	TimestampType int8  // CreateTime, LogAppendTime, NoTimestamp (magic 0)
+	Timestamp     int64  // milliseconds; -1 for magic 0
+	TimestampType int8   // CreateTime, LogAppendTime, NoTimestamp (magic 0)
 	Key           []byte // nil = null
 	Value         []byte // nil = null
 	Headers       []Header
